@@ -108,6 +108,8 @@ class CGen:
         if k == "bin":
             return ("bin", ch.choice(BIN_OPS, "bop"), self.expr(d - 1), self.expr(d - 1))
         if k == "un":
+            if ch.chance(1, 6, "prefix"):
+                return ("un", ch.choice(["++", "--"], "preop"), ("atom", ("id", ch.choice(["tmp", "a", "i", "x1"], "preid"))))
             return ("un", ch.choice(UN_OPS, "uop"), self.expr(d - 1))
         if k == "cast":
             return ("cast", ch.choice(TYPES, "ty"), self.expr(d - 1))
@@ -203,6 +205,8 @@ class CGen:
                 b = " "
             if l[-1:] in "+-&|<>=" and l[-1:] == op[:1]:
                 a = " "
+            if op in ("+", "-") and r[:2] in ("++", "--"):
+                b = " "
             if op == "&" and (l.endswith("&") or r.startswith("&")):
                 a = b = " "
             if op == "/" and r.startswith("*"):
@@ -215,7 +219,7 @@ class CGen:
         if k == "un":
             c = par(n[2], self.prec(n[2]) < P_UNARY)
             s = self.sp()
-            if c[:1] == n[1] or (n[1] in "+-" and c[:1] in "+-"):
+            if c[:1] == n[1][-1:] or (n[1][-1:] in "+-" and c[:1] in "+-"):
                 s = " "
             return n[1] + s + c
         if k == "cast":
@@ -507,6 +511,15 @@ def to_jsonable(x):
 
 
 # ---------------------------------------------------------------------- exhaustive operator pairs
+
+def whitespace_twins():
+    """Pairs of different ASTs whose texts are equal once whitespace is removed (token boundaries matter)."""
+    a, b = ("atom", ("id", "a")), ("atom", ("id", "b"))
+    out = []
+    for inc, op in (("++", "+"), ("--", "-")):
+        out.append((("bin", op, ("post", inc, a), b), ("bin", op, a, ("un", inc, b))))
+    return out
+
 
 def operator_pair_cases():
     """All ordered pairs of binary operators at equal or adjacent precedence levels, in both nestings."""
